@@ -1,4 +1,7 @@
+#[cfg(not(feature = "ross_protocol_verif"))]
 use bxcan::{Can as BxCan, Instance};
+#[cfg(feature = "ross_protocol_verif")]
+use self::verif_sim::{Can as BxCan, Instance};
 use nb::block;
 
 use crate::frame::*;
@@ -78,5 +81,40 @@ impl<I: Instance> Interface for Can<I> {
         }
 
         Ok(())
+    }
+}
+
+/// Verification hook: a scriptable stand-in for the bxCAN driver with the same `receive`/`transmit`
+/// signatures, so that `try_get_packet`/`try_send_packet` can be driven without hardware registers.
+#[cfg(feature = "ross_protocol_verif")]
+pub mod verif_sim {
+    use bxcan::Frame;
+    use core::convert::Infallible;
+
+    pub trait Instance {
+        fn receive(&mut self) -> nb::Result<Frame, ()>;
+        fn transmit(&mut self, frame: &Frame) -> nb::Result<Option<Frame>, Infallible>;
+    }
+
+    pub struct Can<I: Instance> {
+        instance: I,
+    }
+
+    impl<I: Instance> Can<I> {
+        pub fn new(instance: I) -> Self {
+            Can { instance }
+        }
+
+        pub fn instance(&mut self) -> &mut I {
+            &mut self.instance
+        }
+
+        pub fn receive(&mut self) -> nb::Result<Frame, ()> {
+            self.instance.receive()
+        }
+
+        pub fn transmit(&mut self, frame: &Frame) -> nb::Result<Option<Frame>, Infallible> {
+            self.instance.transmit(frame)
+        }
     }
 }
